@@ -191,7 +191,14 @@ var lifecycleSubs = []string{"vcl_recv", "vcl_hash", "vcl_hit", "vcl_miss", "vcl
 var lifecycleActions = []string{"lookup", "pass", "error", "restart", "hash", "deliver", "fetch", "deliver_stale", "hit_for_pass", "upgrade", "bogus"}
 
 func genLifecycleStmt(t *rapid.T) string {
-	switch rapid.IntRange(0, 13).Draw(t, "lstmt") {
+	switch rapid.IntRange(0, 15).Draw(t, "lstmt") {
+	case 14:
+		// calls of subroutines with parameters: fitting, too few, too many, wrong type, unknown
+		return rapid.SampledFrom([]string{`call greet("x");`, `call greet();`, `call greet(10);`, `call greet("a", "b");`, `call add2(1, 2);`, `call add2(1);`,
+			`call add2("a", 2);`, `call add2(1, 2, 3);`, `call rec_a(1);`, `call no_such_sub;`, `call no_such_sub(1);`, `call greet(req.http.Never-Set);`}).Draw(t, "paramcall")
+	case 15:
+		return rapid.SampledFrom([]string{`set req.http.Y = fn_two("a", 1);`, `set req.http.Y = fn_two("a");`, `set req.http.Y = fn_two(1, "a");`, `set req.http.Y = fn_two();`,
+			`set req.http.Y = greet("x");`, `set req.http.Y = no_such_fn(1);`}).Draw(t, "fncall")
 	case 0:
 		return "restart;"
 	case 1:
@@ -310,7 +317,7 @@ func genC08(t *rapid.T) any {
 		}
 	case "include":
 		c.Modules = map[string]string{}
-		shape := rapid.SampledFrom([]string{"self", "mutual", "missing", "chain", "self-in-sub", "mutual-in-sub"}).Draw(t, "shape")
+		shape := rapid.SampledFrom([]string{"self", "mutual", "missing", "chain", "self-in-sub", "mutual-in-sub", "dup-sub", "dup-acl", "dup-table", "dup-backend", "too-many-backends"}).Draw(t, "shape")
 		c.Feat = []string{"include:" + shape}
 		switch shape {
 		case "self":
@@ -326,6 +333,20 @@ func genC08(t *rapid.T) any {
 			c.VCL = "include \"m1\";\nsub vcl_recv { call helper_m2; }\n"
 			c.Modules["m1"] = "include \"m2\";\n"
 			c.Modules["m2"] = "sub helper_m2 { log \"m2\"; }\n"
+		case "dup-sub":
+			c.VCL = "sub helper_d { log \"1\"; }\nsub helper_d { log \"2\"; }\nsub vcl_recv { call helper_d; }\n"
+		case "dup-acl":
+			c.VCL = "acl dup_a { \"10.0.0.0\"/8; }\nacl dup_a { \"11.0.0.0\"/8; }\nsub vcl_recv { log \"x\"; }\n"
+		case "dup-table":
+			c.VCL = "table dup_t { \"a\": \"1\", }\ntable dup_t { \"a\": \"2\", }\nsub vcl_recv { log \"x\"; }\n"
+		case "dup-backend":
+			c.VCL = "backend dup_b { .host = \"127.0.0.1\"; .port = \"1\"; }\nbackend dup_b { .host = \"127.0.0.1\"; .port = \"2\"; }\nsub vcl_recv { log \"x\"; }\n"
+		case "too-many-backends":
+			var bb strings.Builder
+			for i := 0; i < 8; i++ {
+				fmt.Fprintf(&bb, "backend many_%d { .host = \"127.0.0.1\"; .port = \"%d\"; }\n", i, i+1)
+			}
+			c.VCL = bb.String() + "sub vcl_recv { log \"x\"; }\n"
 		case "self-in-sub":
 			c.VCL = "sub vcl_recv {\n  include \"m1\";\n}\n"
 			c.Modules["m1"] = "log \"in\";\ninclude \"m1\";\n"
@@ -334,7 +355,10 @@ func genC08(t *rapid.T) any {
 			c.Modules["m1"] = "log \"m1\";\ninclude \"m2\";\n"
 			c.Modules["m2"] = "log \"m2\";\ninclude \"m1\";\n"
 		}
-		c.Reqs = []C08Req{{Method: "GET", Path: "/"}}
+		// a failed initialisation must not wedge the instance: later requests get an answer too
+		for i, n := 0, rapid.IntRange(1, 3).Draw(t, "nreq"); i < n; i++ {
+			c.Reqs = append(c.Reqs, C08Req{Method: "GET", Path: "/"})
+		}
 	}
 	return c
 }
@@ -377,6 +401,9 @@ sub rec_a { call rec_b; }
 sub rec_b { call rec_a; }
 sub rec_self { call rec_self; }
 sub fn_rec(INTEGER var.n) STRING { return fn_rec(var.n); }
+sub greet(STRING var.name) { log "hello " var.name; }
+sub add2(INTEGER var.a, INTEGER var.b) { set var.a += var.b; log var.a; }
+sub fn_two(STRING var.s, INTEGER var.n) STRING { return var.s var.n; }
 `
 
 type mapResolver struct {
